@@ -1,3 +1,92 @@
-import Gp.Model.Layers.Udp
+import Gp.Lemmas.Layers.UdpRt
+/-
+  C07 for layers/udp.go (engine `ludp`): `(*UDP).SerializeTo` never panics, its output depends
+  only on the layer's fields, the payload and the options — not on the serialize buffer's
+  capacity, stale bytes or history (quantified through the C18 buffer model: any buffer
+  satisfying the representation invariant) — and serialising the mutated layer again gives the
+  same bytes.  `view` = (buffer contents, mutated layer) of a result; `serializeSpec` = the
+  byte-level function of (layer, payload, options) it is proved equal to.
+-/
 namespace Gp.C07.Udp
+open Gp Gp.Udp Gp.SBuf
+
+/-- Never panics: EVERY value of the fields (also out of uint16 range), every checksum
+    configuration, all four option sets, ANY buffer state (even one violating the invariant). -/
+theorem serialize_total (l : Layer) (b : SBuf) (fix csum : Bool) (k : PanicKind) :
+    serializeUdp l b fix csum ≠ .panic k :=
+  serializeInto_no_panic l _ _ _ fix csum rfl k
+
+/-- The output is a function of (fields, payload, options) alone: it equals `serializeSpec`. -/
+theorem serialize_refines_spec (l : Layer) (b : SBuf) (fix csum : Bool) (hI : Gp.C18.Inv b) :
+    view (serializeUdp l b fix csum) = serializeSpec l (contents b) fix csum :=
+  serialize_spec l b fix csum hI
+
+/-- Buffer independence: two buffers with equal contents but arbitrary capacity, stale bytes and
+    history give the same bytes, the same mutated layer and the same error. -/
+theorem serialize_buffer_independent (l : Layer) (b₁ b₂ : SBuf) (fix csum : Bool)
+    (h₁ : Gp.C18.Inv b₁) (h₂ : Gp.C18.Inv b₂) (hc : contents b₁ = contents b₂) :
+    view (serializeUdp l b₁ fix csum) = view (serializeUdp l b₂ fix csum) := by
+  rw [serialize_spec l b₁ fix csum h₁, serialize_spec l b₂ fix csum h₂, hc]
+
+/-- Every requested byte is written: the new contents are exactly the 8 header bytes of the
+    mutated layer followed by the old contents; everything else about the buffer is kept. -/
+theorem serialize_contents (l l' : Layer) (b b' : SBuf) (fix csum : Bool) (hI : Gp.C18.Inv b)
+    (h : serializeUdp l b fix csum = .ok (b', l')) :
+    contents b' = header l' ++ contents b ∧ Gp.C18.Inv b' ∧ b'.layers = b.layers := by
+  have hv := serialize_spec l b fix csum hI
+  rw [h] at hv
+  have hfr := serializeInto_frame l l' _ _ b' _ fix csum rfl h
+  obtain ⟨f1, f2, f3, f4, f5, f6, _⟩ := hfr
+  have hI1 := Gp.C18.inv_prepend' b 8 hI
+  refine ⟨?_, ?_, ?_⟩
+  · simp only [view] at hv
+    exact serializeSpec_ok_bytes l l' _ _ fix csum hv.symm
+  · obtain ⟨i1, i2, i3⟩ := hI1
+    exact ⟨by omega, by omega, by omega⟩
+  · rw [f6, Gp.C18.prepend_layers]
+
+/-- Exactly when it fails: only ComputeChecksums without a usable network layer. -/
+theorem serialize_ok_iff (l : Layer) (b : SBuf) (fix csum : Bool) (hI : Gp.C18.Inv b) :
+    (∃ r, serializeUdp l b fix csum = .ok r) ↔ (csum = true → pseudoOk l.pseudo) := by
+  have hv := serialize_spec l b fix csum hI
+  constructor
+  · rintro ⟨⟨b', l'⟩, h⟩ hc
+    rw [h] at hv
+    subst hc
+    simp only [view] at hv
+    exact serializeSpec_ok_pseudoOk l l' _ _ fix hv.symm
+  · intro hc
+    obtain ⟨⟨x, l'⟩, hr⟩ := serializeSpec_ok_of l (contents b) fix csum hc
+    rw [hr] at hv
+    obtain ⟨b', hb, _⟩ := view_ok _ _ _ hv
+    exact ⟨_, hb⟩
+
+/-- Idempotence: serialising the (mutated) layer again over the same payload — in any other
+    well-formed buffer holding that payload — gives the same bytes and leaves the layer fixed. -/
+theorem serialize_idempotent (l l' : Layer) (b b' b₂ : SBuf) (fix csum : Bool)
+    (hI : Gp.C18.Inv b) (hI₂ : Gp.C18.Inv b₂) (hc : contents b₂ = contents b)
+    (h : serializeUdp l b fix csum = .ok (b', l')) :
+    view (serializeUdp l' b₂ fix csum) = .ok (contents b', l') := by
+  have hv := serialize_spec l b fix csum hI
+  rw [h] at hv
+  simp only [view] at hv
+  rw [serialize_spec l' b₂ fix csum hI₂, hc]
+  exact serializeSpec_idem l l' _ _ fix csum hv.symm
+
+/-! Non-vacuity: a dirty, cleared buffer and a fresh one; an IPv4 pseudo header; fix+csum. -/
+
+def exLayer : Layer := { Layer.fresh with srcPort := 1000, dstPort := 2000, pseudo := .v4 [1, 2, 3, 4] [5, 6, 7, 8] }
+def exDirty : SBuf :=
+  step (clear (step (step (new 0 0) (.append (List.replicate 24 0xa5))) (.prepend (List.replicate 42 0xa5)))) (.prepend [0xe4, 0x0e])
+def exFresh : SBuf := step (new 0 0) (.prepend [0xe4, 0x0e])
+
+example : contents exDirty = contents exFresh := by decide
+example : Gp.C18.Inv exDirty := by unfold Gp.C18.Inv; decide
+/-- the datagram of the C08 example: the computed checksum is 0 and is emitted as 0xffff -/
+example : view (serializeUdp exLayer exDirty true true) =
+    .ok ([0x03, 0xe8, 0x07, 0xd0, 0x00, 0x0a, 0xff, 0xff, 0xe4, 0x0e], { exLayer with length := 10, checksum := 0xffff }) := by
+  decide
+example : (serializeUdp { exLayer with pseudo := .none } exFresh true true).isErr = true := by decide
+example : pseudoOk exLayer.pseudo := by decide
+
 end Gp.C07.Udp
